@@ -40,7 +40,7 @@ static std::vector<IndexType> parse_idx(std::map<std::string, std::string>& f, I
 }
 
 // value-indexed copy of the position-indexed weight matrix; entries never addressed by a correct run are poisoned
-// with a negative value (a query by position instead of by value then changes the result or trips the oracle)
+// (12345: a query by position instead of by value then changes the result)
 static DenseMatrix by_value(const DenseMatrix& W, const std::vector<IndexType>& idx)
 {
     IndexType m = 0;
